@@ -9,7 +9,7 @@ from ..core import Violation
 from .c09 import CORE_ATOMS, atom_vocabulary, quick_atoms, universe
 
 SHARDS = {"quick": 4, "thorough": 16}
-TIMEOUT = {"quick": 600, "thorough": 3000}
+TIMEOUT = {"quick": 1800, "thorough": 7200}
 
 
 def expression_set(tier):
